@@ -226,14 +226,38 @@ def run(scn: Dict[str, Any]) -> List[Dict[str, Any]]:
         pm.signal = _FakeSignalModule  # type: ignore[assignment]
         pm.current_process = lambda: _CurProc()  # type: ignore[assignment]
         cfg = scn["cfg"]
-        args = WorkerArgs(broker="b", modules=[], workers=cfg["workers"], max_fails=cfg["max_fails"], reload=bool(cfg.get("reload", False)))
-        manager = pm.ProcessManager(args, worker_function=lambda args: None)
-        w.manager = manager
+        via_cli = cfg.get("via") == "cli" and not cfg.get("reload")
+        if via_cli:
+            # the manager as `taskiq worker` builds it: WorkerArgs.from_cli(argv) -> run_worker(args); unrelated options carry
+            # tell-tale values that must not end up as the number of workers or as the failure budget
+            from taskiq.cli.worker import run as cli_run
+
+            class CapturedManager(pm.ProcessManager):
+                def __init__(self, *a: Any, **k: Any) -> None:
+                    w.manager = self
+                    super().__init__(*a, **k)
+
+            args = WorkerArgs.from_cli(["b:b", "--workers", str(cfg["workers"]), "--max-fails", str(cfg["max_fails"]), "--no-configure-logging",
+                                        "--max-async-tasks", "7", "--max-prefetch", "5", "--hardkill-count", "4", "--max-threadpool-threads", "6",
+                                        "--shutdown-timeout", "9", "--max-tasks-per-child", "8"])
+            saved_pm_cls = cli_run.ProcessManager
+            cli_run.ProcessManager = CapturedManager  # type: ignore[misc,assignment]
+
+            def start() -> Any:
+                try:
+                    return cli_run.run_worker(args)
+                finally:
+                    cli_run.ProcessManager = saved_pm_cls  # type: ignore[misc]
+        else:
+            args = WorkerArgs(broker="b", modules=[], workers=cfg["workers"], max_fails=cfg["max_fails"], reload=bool(cfg.get("reload", False)))
+            manager = pm.ProcessManager(args, worker_function=lambda args: None)
+            w.manager = manager
+            start = manager.start
         try:
-            ret = manager.start()
+            ret = start()
             w.rec("ret", n=0 if ret is None else (ret if ret in (-1, 0) else 99))
         except StopRun:
-            w.rec("eot", pid=len(manager.workers))
+            w.rec("eot", pid=len(w.manager.workers))
         except BaseException as exc:  # noqa: BLE001
             w.rec("raised", s=type(exc).__name__)
         return w.events
